@@ -31,16 +31,19 @@ c0    var wg sync.WaitGroup
 c1    wg.Add(1)
 c2    lg.m[key] = &wg
 c3    lg.mu.Unlock()
-f0    fn starts            (return fn(): the result is evaluated before the deferred block runs)
+f0    fn starts            (return fn(): the result is evaluated before the deferred block runs;
+                            environment input ≠ 0: this execution is going to panic → fp)
 f1    fn returns
+fp    fn panics: the deferred block runs, then the panic propagates
 e0    (deferred) lg.mu.Lock()
 e1    delete(lg.m, key)
 e2    lg.mu.Unlock()
 e3    wg.Done()
 e4    return
+px    (after the deferred block of a panicking fn) the panic leaves Do: the call ends without returning
 ``` -/
 inductive PC
-  | idle | b0 | b1 | b2 | b3 | c0 | c1 | c2 | c3 | f0 | f1 | e0 | e1 | e2 | e3 | e4
+  | idle | b0 | b1 | b2 | b3 | c0 | c1 | c2 | c3 | f0 | f1 | fp | e0 | e1 | e2 | e3 | e4 | px
   deriving DecidableEq, Repr
 
 structure St where
@@ -52,6 +55,7 @@ structure St where
   key   : Tid → Key
   reg   : Tid → Nat             -- the wait group in hand (found one, or own)
   tmp   : Tid → Val             -- fn's result
+  pn    : Tid → Bool            -- the goroutine is unwinding a panic of its fn
   -- ghost
   now   : Nat
   inv   : Tid → Nat
@@ -64,13 +68,13 @@ structure St where
 
 def init : St :=
   { lock := none, m := fun _ => none, wg := fun _ => 0, next := 0, pc := fun _ => .idle, key := fun _ => 0,
-    reg := fun _ => 0, tmp := fun _ => 0, now := 0, inv := fun _ => 0, runs := fun _ => 0, owner := fun _ => 0,
+    reg := fun _ => 0, tmp := fun _ => 0, pn := fun _ => false, now := 0, inv := fun _ => 0, runs := fun _ => 0, owner := fun _ => 0,
     ekey := fun _ => 0, fstart := fun _ => none, fend := fun _ => none, rets := [] }
 
 def step (s : St) (t : Tid) (x : Nat) : Option St :=
   match s.pc t with
   | .idle => some { s with pc := upd s.pc t .b0, key := upd s.key t x, inv := upd s.inv t s.now,
-                           runs := upd s.runs t 0, now := s.now + 1 }
+                           runs := upd s.runs t 0, pn := upd s.pn t false, now := s.now + 1 }
   | .b0 => if s.lock = none then some { s with lock := some t, pc := upd s.pc t .b1, now := s.now + 1 } else none
   | .b1 =>
     match s.m (s.key t) with
@@ -85,17 +89,23 @@ def step (s : St) (t : Tid) (x : Nat) : Option St :=
   | .c1 => some { s with wg := upd s.wg (s.reg t) (s.wg (s.reg t) + 1), pc := upd s.pc t .c2, now := s.now + 1 }
   | .c2 => some { s with m := upd s.m (s.key t) (some (s.reg t)), pc := upd s.pc t .c3, now := s.now + 1 }
   | .c3 => some { s with lock := none, pc := upd s.pc t .f0, now := s.now + 1 }
-  | .f0 => some { s with runs := upd s.runs t (s.runs t + 1), fstart := upd s.fstart (s.reg t) (some s.now),
-                         pc := upd s.pc t .f1, now := s.now + 1 }
+  | .f0 => if x = 0 then some { s with runs := upd s.runs t (s.runs t + 1), fstart := upd s.fstart (s.reg t) (some s.now),
+                                       pc := upd s.pc t .f1, now := s.now + 1 }
+           else some { s with runs := upd s.runs t (s.runs t + 1), fstart := upd s.fstart (s.reg t) (some s.now),
+                              pc := upd s.pc t .fp, now := s.now + 1 }
   | .f1 => some { s with tmp := upd s.tmp t x, fend := upd s.fend (s.reg t) (some s.now), pc := upd s.pc t .e0,
+                         now := s.now + 1 }
+  | .fp => some { s with pn := upd s.pn t true, fend := upd s.fend (s.reg t) (some s.now), pc := upd s.pc t .e0,
                          now := s.now + 1 }
   | .e0 => if s.lock = none then some { s with lock := some t, pc := upd s.pc t .e1, now := s.now + 1 } else none
   | .e1 => some { s with m := upd s.m (s.key t) none, pc := upd s.pc t .e2, now := s.now + 1 }
   | .e2 => some { s with lock := none, pc := upd s.pc t .e3, now := s.now + 1 }
-  | .e3 => some { s with wg := upd s.wg (s.reg t) (s.wg (s.reg t) - 1), pc := upd s.pc t .e4, now := s.now + 1 }
+  | .e3 => if s.pn t = true then some { s with wg := upd s.wg (s.reg t) (s.wg (s.reg t) - 1), pc := upd s.pc t .px, now := s.now + 1 }
+           else some { s with wg := upd s.wg (s.reg t) (s.wg (s.reg t) - 1), pc := upd s.pc t .e4, now := s.now + 1 }
   | .e4 => some { s with pc := upd s.pc t .idle, now := s.now + 1,
                          rets := { tid := t, key := s.key t, inv := s.inv t, ret := s.now, val := s.tmp t,
                                    own := s.tmp t, runs := s.runs t } :: s.rets }
+  | .px => some { s with pc := upd s.pc t .idle, pn := upd s.pn t false, now := s.now + 1 }
 
 def stmt : PC → String
   | .idle => "invoke"
@@ -109,16 +119,18 @@ def stmt : PC → String
   | .c3 => "call lg.mu.Unlock()"
   | .f0 => "call fn()"
   | .f1 => "fn returns"
+  | .fp => "fn panics"
   | .e0 => "call lg.mu.Lock()"
   | .e1 => "delete lg.m[key]"
   | .e2 => "call lg.mu.Unlock()"
   | .e3 => "call wg.Done()"
   | .e4 => "return <call>"
+  | .px => "panic propagates"
 
 def succ : PC → List PC
   | .idle => [.b0] | .b0 => [.b1] | .b1 => [.b2, .c0] | .b2 => [.b3] | .b3 => [.b0]
-  | .c0 => [.c1] | .c1 => [.c2] | .c2 => [.c3] | .c3 => [.f0] | .f0 => [.f1] | .f1 => [.e0]
-  | .e0 => [.e1] | .e1 => [.e2] | .e2 => [.e3] | .e3 => [.e4] | .e4 => [.idle]
+  | .c0 => [.c1] | .c1 => [.c2] | .c2 => [.c3] | .c3 => [.f0] | .f0 => [.f1, .fp] | .f1 => [.e0] | .fp => [.e0]
+  | .e0 => [.e1] | .e1 => [.e2] | .e2 => [.e3] | .e3 => [.e4, .px] | .e4 => [.idle] | .px => [.idle]
 
 def run (s : St) : List (Tid × Nat) → Option St
   | [] => some s
